@@ -213,6 +213,27 @@ def check(case):
     bad = _compare(m1, m2, nt, txt, src)
     if bad is not None:
         return bad
+    # second generation: the source saved as a module, imported, generated again - still the same model
+    import os
+    import shutil
+
+    from mc.core import WORK_DIR, sha12
+
+    d = WORK_DIR / "C11" / f"{os.getpid()}_{sha12(case)}"
+    try:
+        try:
+            mg = _import_generated(d / "model.py", src, f"{sha12(case)}_g1")
+            src2 = generate_mxlpy_code(mg)
+            m3 = _import_generated(d / "model2.py", src2, f"{sha12(case)}_g2")
+        except Exception as exc:  # noqa: BLE001
+            return outcome(False, "second-generation-failed", symptom=f"generation2:raised:{type(exc).__name__}", nontrivial=nt,
+                           detail=f"the generated module cannot be generated from again: {type(exc).__name__}: {str(exc)[:300]} | {txt}")
+        bad = _compare(m1, m3, nt, "[second generation] " + txt, src2)
+        if bad is not None:
+            bad["symptom"] = f"generation2:{bad['symptom']}"
+            return bad
+    finally:
+        shutil.rmtree(d, ignore_errors=True)
     return outcome(True, "rebuilt-equal", nontrivial=nt)
 
 
